@@ -168,7 +168,8 @@ class Certificate:
         bool
             True if the signature is NISTP256, False otherwise.
         """
-        return self.certificate["signature"][0] == "ecdsaNistP256Signature"
+        signature = self.certificate.get("signature")
+        return signature is not None and signature[0] == "ecdsaNistP256Signature"
 
     def verification_key_is_nist_p256(self) -> bool:
         """
